@@ -30,3 +30,30 @@ PROPS['C13'] = dict(
 )
 
 NOT_CLAIMED = {}
+
+PROPS['C20'] = dict(
+    lean_targets=['AnonModel.Props.C20'],
+    required_theorems=['C20_uri_iff', 'C20_legacyDid_iff', 'C20_legacySchema_iff', 'C20_legacyCredDef_iff', 'C20_legacyRevReg_iff',
+                       'C20_id_valid_iff', 'C20_schema_valid_iff', 'C20_credreq_valid_iff'],
+    families=[dict(name='c20')],
+    default_dir='exact',
+    spec_is_model=['c20'],
+    fam_theorem={'c20': 'C20_*_iff (recogniser = declarative grammar), C20_id_valid_iff, C20_schema_valid_iff, C20_credreq_valid_iff'},
+    rule="strings generated from each of the five grammars (URI, legacy DID / schema / cred-def / rev-reg id) with valid-biased and free components, boundary lengths 20-23, forbidden base58 letters, wrong type markers, empty components, embedded/trailing newlines, non-ASCII; single and double mutations of each; every string is fed to the five regexes (hook) and to the four validating constructors *Id::new. Schemas: 0,1,2,3,124,125,126,127,200 names, duplicates, odd issuer ids, random short lists. Credential requests: all entropy x prover-DID x cred-def-id kind combinations (deserialise + validate). distinct = distinct inputs; all non-trivial (every case decides membership)",
+    trusted_base=TRUSTED_COMMON + ["Rust regex crate semantics (anchors, '.', negated classes) as transcribed in Model/Ident.lean; validated by the exact correspondence on ~10^5 strings per run"],
+    assumptions=["'every object the issuer API returns carries identifiers that pass validation' is claimed for ids that entered through validating constructors (new/try_from/C ABI); new_unchecked, the pub tuple field and Deserialize bypass validation by design of the Rust API and are outside the claim (DESIGN §6 C20)"],
+)
+
+PROPS['C08'] = dict(
+    lean_targets=['AnonModel.Props.C08'],
+    required_theorems=['C08_merge_comm', 'C08_merge_assoc', 'C08_valid_merge', 'C08_valid_foldMerge', 'C08_fold_perm', 'C08_open_bounds',
+                       'C08_override_only_from', 'C08_override_keyed', 'C08_legacy_exact', 'C08_w3c_exact', 'C08_accept_legacy_partial',
+                       'C08_reject_legacy_partial', 'C08_accept_w3c', 'C08_nonrevocable_ignores'],
+    families=[dict(name='c08')],
+    default_dir='exact',
+    spec_is_model=['c08'],
+    fam_theorem={'c08': 'C08_legacy_exact / C08_w3c_exact / C08_demand_spec / C08_override_keyed'},
+    rule="exhaustive grid {absent,10,20,30}^2 for every interval: merge (256), is_valid at 14 timestamps incl. 0 and 2^64-1, override maps (5), folds of up to three optional locals through get_requested_attributes (HashSet order), get_requested_non_revoked_interval over registry id x local x global x 7 override maps; check_non_revoked_interval and the prover-side get_non_revoked_interval over revocable x attrs x preds x global x registry id x override x 13 timestamps (sampled 40k in quick, exhaustive in thorough); compared exactly with the Lean model",
+    trusted_base=TRUSTED_COMMON,
+    assumptions=["full 'accept'/'reject'/'needs timestamp' statements are false of the code for intervals on unrevealed referents (F5) and for identifiers without rev_reg_id (F4): delivered as _partial + _refuted theorems and recorded as known findings under C02/C08 (DESIGN §7)"],
+)
